@@ -57,6 +57,14 @@ def stress_api(r, idx):
         main.resource_def("gamma.example.com/crate", ["boxes/{box}"])
         add_ref("crate_a", "gamma.example.com/Crate"); add_ref("crate_b", "gamma.example.com/crate")
         feats.append("case-equal-resource-name")
+    if k in (0, 2):
+        # top-level messages and enums whose names differ only by case (legal: protobuf identifiers are case sensitive)
+        a = main.message("IPAddress"); a.field("value", 1, "string")
+        b = main.message("IpAddress"); b.field("value", 1, "string")
+        main.enum("HTTPCode", ["HTTP_CODE_UNSPECIFIED", "HTTP_CODE_OK"]); main.enum("HttpCode", ["HTTPCODE_UNSPECIFIED", "HTTPCODE_OK"])
+        f = req.field.add(); f.name, f.number, f.label, f.type, f.type_name = "ip_a", 80, 1, 11, a.fqn
+        f = req.field.add(); f.name, f.number, f.label, f.type, f.type_name = "ip_b", 81, 1, 11, b.fqn
+        feats.append("case-equal-message-names")
     if k in (2, 4):
         for i in range(4):
             main.resource_def(f"delta.example.com/Res{i}", [f"res{i}s/{{res{i}}}"])
@@ -166,6 +174,15 @@ def run_pure(ctx):
         k = r.randint(0, 6)
         recs.append([[r.choice(["Book", "book", "shelf", "Shelf", "a", "B", "zoo", "Zoo", "item_1", "Item-2"]), f"t{j}"] for j in range(k)])
     out = gen.impl("c10_pure", {"texts": texts, "recs": recs})
+    # direct oracle on the combinators themselves: the same call in processes with other hash seeds
+    for seed in (["1", "2", "3"] if ctx.quick() else [str(i) for i in range(1, 9)]):
+        other = gen.impl("c10_pure", {"texts": texts, "recs": recs}, hashseed=seed)
+        for k in ("sort_lines_dedupe", "sort_lines_nodedupe"):
+            for t, a, b in zip(texts, out[k], other[k]):
+                if a != b:
+                    ctx.violation(f"{k}({t!r}) differs between PYTHONHASHSEED=0 ({a!r}) and {seed} ({b!r})", {"text": t, "function": k, "seeds": ["0", seed]},
+                                  None)
+                    break
     checks = []
     for t, d1, d0 in zip(texts, out["sort_lines_dedupe"], out["sort_lines_nodedupe"]):
         ctx.case({"sort_lines": t}, nontrivial=len(set(t.split("\n"))) > 1, feature="sort_lines")
